@@ -762,13 +762,132 @@ def impl_trace_canon(prog, r, t):
     return [canon_obs(q, res) for q, res in pairs] + [canon_cfg(r["final"][t]) + [1]]
 
 
+# ------------------------------------------------------------- second stream: start method, life of an object
+K_F19 = "settings-lost-after-abort:loky-abort_everything-reconfigures-without-backend-kwargs"
+METHOD = {"spawn": 1, "forkserver": 2, "fork": 3}
+LIFE_ARGS = {"n_jobs": 2, "max_nbytes": 10, "temp_folder": "/tmp/verif-c17-life", "mmap_mode": "c", "verbose": 0}
+LIFE_WITNESS = {"mode": "life", "backend": "recloky", "args": LIFE_ARGS, "enclosing": None, "ops": ["enter", "ok", "fail", "ok"]}
+
+
+def gen_life_stream(rng, quick):
+    """{env value: [cases]}"""
+    out = {}
+    for env in (None, "spawn", "forkserver", "fork"):
+        cs = [{"mode": "ctx", "arg": a, "enclosing": e, "build": False}
+              for a in (None, "spawn", "forkserver", "fork") for e in (None, "multiprocessing", "threading")]
+        out[env] = cs
+    # the pool that is really built (slow start methods: a few cases only)
+    out[None].append({"mode": "ctx", "arg": "spawn", "enclosing": None, "build": True})
+    out["forkserver"].append({"mode": "ctx", "arg": "spawn", "enclosing": None, "build": True})
+    out["forkserver"].append({"mode": "ctx", "arg": None, "enclosing": "multiprocessing", "build": True})
+    out["spawn"].append({"mode": "ctx", "arg": "fork", "enclosing": "threading", "build": True})
+    if not quick:
+        out["fork"].append({"mode": "ctx", "arg": "forkserver", "enclosing": None, "build": True})
+        out["spawn"].append({"mode": "ctx", "arg": None, "enclosing": "multiprocessing", "build": True})
+    histories = [["enter", "ok", "fail", "ok", "exit"], ["enter", "fail", "fail", "ok"], ["ok", "fail", "ok"],
+                 ["enter", "ok", "exit", "ok", "fail"]]
+    if not quick:
+        histories += [["enter", "fail", "exit", "enter", "ok", "fail", "ok"], ["fail", "enter", "ok", "fail"]]
+    ctx_settings = {"max_nbytes": 10, "temp_folder": "/tmp/verif-c17-life", "mmap_mode": "c"}
+    for b_ in ("recmp", "recthr", "recloky"):
+        for h in histories:
+            out[None].append({"mode": "life", "backend": b_, "args": LIFE_ARGS, "enclosing": None, "ops": h})
+        # the same settings resolved from an enclosing parallel_config instead of explicit arguments
+        out[None].append({"mode": "life", "backend": b_, "args": {"n_jobs": 2}, "enclosing": ctx_settings, "ops": histories[0]})
+    # the start-method context must survive the reconfiguration too
+    out["forkserver"].append({"mode": "life", "backend": "recmp", "args": LIFE_ARGS, "enclosing": None, "ops": ["enter", "fail", "ok"]})
+    return out
+
+
+def run_life_stream(stream):
+    import concurrent.futures as cf
+
+    def one(item):
+        env, cs = item
+        extra = {} if env is None else {"JOBLIB_START_METHOD": env}
+        e = common.impl_env(extra)
+        if env is None:
+            e.pop("JOBLIB_START_METHOD", None)
+        rc, out, err = common.run_impl("c17_life_impl.py", input_text="\n".join(json.dumps(c) for c in cs) + "\n", env=e, timeout=900)
+        lines = [json.loads(l) for l in out.splitlines() if l.strip()]
+        if len(lines) != len(cs):
+            raise RuntimeError("c17_life_impl (%s) produced %d results for %d cases: %s" % (env, len(lines), len(cs), err[-1500:]))
+        return env, lines
+    with cf.ThreadPoolExecutor(4) as ex:
+        return dict(ex.map(one, list(stream.items())))
+
+
+def oracle_ctx(env, c, r):
+    """explicit context object > JOBLIB_START_METHOD > library default"""
+    if "harness_error" in r:
+        return "harness error " + r["harness_error"]
+    exp = c["arg"] or env or r["default"]
+    if r["context"] != exp:
+        return ("start method of _backend_kwargs['context'] is %r, expected %r (explicit context object %r > JOBLIB_START_METHOD "
+                "%r > default %r)" % (r["context"], exp, c["arg"], env, r["default"]))
+    if "pool_context" in r and r["pool_context"] != exp:
+        return "the pool actually built uses start method %r, expected %r" % (r["pool_context"], exp)
+    kind = "MultiprocessingBackend" if c["arg"] else {None: "LokyBackend", "multiprocessing": "MultiprocessingBackend",
+                                                       "threading": "ThreadingBackend"}[c["enclosing"]]
+    if r["kind"] != kind:
+        return "backend %s, expected %s" % (r["kind"], kind)
+    return None
+
+
+def oracle_life(c, r):
+    """what the backend is configured with is, every time, what the first configuration of that object got"""
+    if "harness_error" in r:
+        return "harness error " + r["harness_error"], None
+    calls = r["configure_calls"]
+    if not calls:
+        return "the backend was never configured", None
+    first = calls[0]
+    if first["n_jobs"] != r["resolved"]["n_jobs"] or first["kwargs"] != r["resolved"]["kwargs"]:
+        return "first configuration %s differs from what Parallel.__init__ resolved %s" % (first, r["resolved"]), None
+    for i, k in enumerate(calls[1:], 1):
+        if k != first:
+            lost = sorted(x for x in first["kwargs"] if k["kwargs"].get(x) != first["kwargs"][x])
+            key = K_F19 if (c["backend"] == "recloky" and all(k["kwargs"][x] == "<absent>" for x in lost)
+                            and k["n_jobs"] == first["n_jobs"]) else None
+            return ("configure call #%d of the same Parallel object (history %s) lost %s: got %s, the object was first configured "
+                    "with %s" % (i + 1, c["ops"], lost, {x: k["kwargs"][x] for x in lost}, {x: first["kwargs"][x] for x in lost})), key
+    return None, None
+
+
+REQ_LIFE = """From Coq Require Import ZArith List Bool.
+Require Import JV.Base.PyPrelude JV.Model.Config%s.
+Import ListNotations. Open Scope Z_scope."""
+DEFS_LIFE = """Definition dummy : pres := {| r_kind := BMp; r_level := 0; r_njobs := 2; r_verbose := 0; r_kw_maxnb := Some 10; r_kw_temp := 1;
+  r_kw_mmap := 4; r_kw_prefer := 0; r_kw_require := 0; r_kw_verbose := 0 |}.
+Definition show_calls (passes : bool) (ops : list oop) : list Z :=
+  map (fun c => match c with CFull _ => 1 | CBare _ => 0 end) (o_calls (orun passes ops (new_obj dummy)))."""
+OPC = {"enter": "OEnter", "ok": "OCallOk", "fail": "OCallFail", "exit": "OExit"}
+
+
 F16_WITNESS = {"threads": [["with", "config", {"n_jobs": [2]}, ["obs", ["parallel", {"prefer": 1}]]]], "schedule": []}
 F16B_WITNESS = {"threads": [["with", "config", {"n_jobs": [3]}, ["obs", ["parallel", {"require": 1}]]]], "schedule": []}
 F17_WITNESS = {"threads": [["with", "config", {"require": 1},
                             ["obs", ["parallel", {"backend": ["inst", "loky", None, True], "n_jobs": [2]}]]]], "schedule": []}
 
 
+def search_life(ctx):
+    stream = gen_life_stream(ctx.rng, True)
+    sres = run_life_stream(stream)
+    for env, cs in stream.items():
+        for c, r in zip(cs, sres[env]):
+            if c["mode"] == "ctx":
+                bad, key = oracle_ctx(env, c, r), None
+            else:
+                bad, key = oracle_life(c, r)
+            if bad and key is None:
+                return bad, dict(c, env=env)
+    return None
+
+
 def search_failing(ctx, n=300):
+    hit = search_life(ctx)
+    if hit:
+        return hit
     progs = [rnd_prog(ctx.rng, 0, 3) for _ in range(n)]
     cases = make_cases(progs, ctx.rng)
     res = run_impl_cases(cases)
@@ -794,7 +913,8 @@ def run(ctx):
     ]
     translator_ok = True
     gens = [(gen_c17.generate, "T_config_param", "_get_config_param"),
-            (gen_c17.generate_active_backend, "T_active_backend", "_get_active_backend")]
+            (gen_c17.generate_active_backend, "T_active_backend", "_get_active_backend"),
+            (gen_c17.generate_mp_context, "T_mp_context", "Parallel.__init__ mp context / abort_everything")]
     rejected = set()
     for gen, fname, label in gens:
         try:
@@ -902,6 +1022,49 @@ def run(ctx):
                                   "impl": iv, "model": v})
     n_obs += len(flats)
 
+    # ---- second stream: start method (one interpreter per JOBLIB_START_METHOD value) and the life of one object
+    ctx.coq_build(["Gen/T_mp_context.vo"])
+    stream = gen_life_stream(ctx.rng, quick)
+    sres = run_life_stream(stream)
+    use_mpc = "T_mp_context" not in rejected and os.path.exists(os.path.join(common.COQ, "Gen", "T_mp_context.vo"))
+    life_problems, lexprs, lmeta = [], [], []
+    life_stats = {"ctx_cases": 0, "pools_built": 0, "life_cases": 0, "configure_calls": 0}
+    for env, cs in stream.items():
+        for c, r in zip(cs, sres[env]):
+            if c["mode"] == "ctx":
+                life_stats["ctx_cases"] += 1
+                life_stats["pools_built"] += 1 if "pool_context" in r else 0
+                bad = oracle_ctx(env, c, r)
+                if bad:
+                    life_problems.append((bad, dict(c, env=env), r))
+                if "harness_error" not in r:
+                    fn = "src_mp_context" if use_mpc else "(fun e a d => Some (mp_context_model e a d))"
+                    lexprs.append("match %s %s %s %d with Some v => [v] | None => [0] end" % (
+                        fn, "None" if env is None else "(Some %d)" % METHOD[env],
+                        "None" if c["arg"] is None else "(Some %d)" % METHOD[c["arg"]], METHOD[r["default"]]))
+                    lmeta.append((dict(c, env=env), [METHOD.get(r["context"], -1)], r))
+            else:
+                life_stats["life_cases"] += 1
+                bad, key = oracle_life(c, r)
+                if bad and key:
+                    findings.setdefault(key, (bad, None))
+                elif bad:
+                    life_problems.append((bad, dict(c, env=env), r))
+                if "harness_error" not in r:
+                    life_stats["configure_calls"] += len(r["configure_calls"])
+                    passes = ("loky_abort_passes_kwargs" if c["backend"] == "recloky" else "pool_abort_passes_kwargs") if use_mpc \
+                        else ("false" if c["backend"] == "recloky" else "true")
+                    lexprs.append("show_calls %s [%s]" % (passes, "; ".join(OPC[o] for o in c["ops"])))
+                    first = r["configure_calls"][0] if r["configure_calls"] else None
+                    lmeta.append((dict(c, env=env), [1 if k == first else 0 for k in r["configure_calls"]], r))
+    lvals = ctx.coq_eval_lines(REQ_LIFE % (" JV.Gen.T_mp_context" if use_mpc else ""), DEFS_LIFE, lexprs, name="c17_life")
+    for (c, iv, r), v in zip(lmeta, lvals):
+        if parse_coq_lists(v) != iv:
+            disagreements.append({"case": c, "function": "src_mp_context / object life machine", "impl": iv, "model": v, "raw": r})
+    n_obs += life_stats["ctx_cases"] + life_stats["configure_calls"]
+    for bad, c, r in life_problems[:3]:
+        ctx.violation(bad, {"kind": "oracle", "case": c, "impl": r}, True)
+
     # ---- decide
     for bad, c, detail in problems[:3]:
         rep = c
@@ -914,7 +1077,7 @@ def run(ctx):
             if judge_case(small, run_impl_cases([small], nproc=1)[0]):
                 rep = small
         ctx.violation(bad, {"kind": "oracle", "case": rep, "detail": detail}, True)
-    if disagreements and not problems:
+    if disagreements and not problems and not life_problems:
         hit = search_failing(ctx, 600 if quick else 3000)
         if hit:
             ctx.violation(hit[0], {"kind": "model-disagreement+failing-input", "case": hit[1],
@@ -938,7 +1101,18 @@ def run(ctx):
             ctx.violation("witness of a _refuted theorem no longer fails on the implementation (%s): the model is stale" % key,
                           {"kind": "stale-model", "case": wit, "key": key}, found_input=False)
     for key, (bad, detail) in findings.items():
-        ctx.violation(bad, {"kind": "known-finding", "case": minimal_replay(detail)}, True, finding_key=key)
+        ctx.violation(bad, {"kind": "known-finding", "case": LIFE_WITNESS if detail is None else minimal_replay(detail)}, True,
+                      finding_key=key)
+    # F46 witness (C17_object_settings_loky_refuted) must still fail on the implementation
+    wr = run_life_stream({None: [LIFE_WITNESS]})[None][0]
+    wbad, wkey = oracle_life(LIFE_WITNESS, wr)
+    if wkey == K_F19:
+        ctx.violation(wbad, {"kind": "known-finding", "case": LIFE_WITNESS}, True, finding_key=K_F19)
+    elif wbad:
+        ctx.violation(wbad, {"kind": "oracle", "case": LIFE_WITNESS}, True)
+    else:
+        ctx.violation("witness of C17_object_settings_loky_refuted no longer fails on the implementation: the model is stale",
+                      {"kind": "stale-model", "case": LIFE_WITNESS, "key": K_F19}, found_input=False)
 
     if not translator_ok and not disagreements and not problems and proofs_ok:
         ctx.note("translator tie lost, hand-model tie intact")
@@ -958,6 +1132,7 @@ def run(ctx):
         "flat_cases_per_default_backend": {dk: sum(1 for f in flats if f[0] == dk) for dk in ("loky", "thr", "seq", "mp")},
         "observation_distribution": dist,
         "threads_per_case": sorted({len(c["threads"]) for c in cases}),
+        "start_method_and_object_life": life_stats,
         "disagreements": len(disagreements),
         "translator_ok": translator_ok,
         "exhaustive": "depth<=2 over the reduced value set",
@@ -974,6 +1149,12 @@ def replay(ctx, path):
     obj = json.load(open(path))
     rep = obj.get("replay", obj)
     c = rep.get("case") or rep.get("input")
+    if c and c.get("mode") in ("ctx", "life"):
+        env = c.get("env")
+        r = run_life_stream({env: [c]})[env][0]
+        bad = oracle_ctx(env, c, r) if c["mode"] == "ctx" else oracle_life(c, r)[0]
+        print("replay:", json.dumps(c), "->", json.dumps(r)[:600], "=>", bad or "property holds")
+        return 1 if bad else 0
     if not c or "threads" not in c:
         print("replay file names a broken proof/correspondence, nothing to execute:", rep.get("kind"))
         return 1
